@@ -354,10 +354,15 @@ static void free_syms(const RCP<const Basic> &b, set_basic &s)
 
 typedef std::complex<double> cplx;
 
-static bool eval_at(const RCP<const Basic> &b, const map_basic_basic &pt, cplx &out)
+static bool eval_at(const RCP<const Basic> &b, const map_basic_basic &pt, cplx &out, bool real_only = false)
 {
     try {
         RCP<const Basic> v = b->subs(pt);
+        if (real_only) {
+            // real evaluation: NaN as soon as a sub-expression leaves its real domain
+            out = cplx(eval_double(*v), 0.0);
+            return std::isfinite(out.real());
+        }
         try {
             out = eval_complex_double(*v);
         } catch (...) {
@@ -409,7 +414,7 @@ static std::string numeric_oracle(const RCP<const Basic> &e, const RCP<const Bas
         cplx dv;
         map_basic_basic p0 = pt;
         p0[x] = num(x0);
-        if (!eval_at(d, p0, dv))
+        if (!eval_at(d, p0, dv, !complex_pts))
             continue;
         cplx fd[2];
         bool ok = true;
@@ -420,7 +425,7 @@ static std::string numeric_oracle(const RCP<const Basic> &e, const RCP<const Bas
             pp[x] = num(x0 + h);
             pm[x] = num(x0 - h);
             cplx fp, fm;
-            ok = eval_at(e, pp, fp) && eval_at(e, pm, fm);
+            ok = eval_at(e, pp, fp, !complex_pts) && eval_at(e, pm, fm, !complex_pts);
             if (ok && !complex_pts && (std::fabs(fp.imag()) > 1e-12 || std::fabs(fm.imag()) > 1e-12 || std::fabs(dv.imag()) > 1e-12))
                 ok = false; // outside the real domain
             if (ok)
@@ -689,6 +694,8 @@ static std::string run_D(const std::vector<std::string> &f)
         o << "\t#ORACLE:cache: diff(e, x, cache=true) = " << (ex1.empty() ? d->__str__() : ex1)
           << " but diff(e, x, cache=false) = " << (ex2.empty() ? d2->__str__() : ex2);
     }
+    if (!ex1.empty() && !has_symbol(*e, *x))
+        o << "\t#INFO:occurs=0\t#ORACLE:absent: has_symbol(e, x) is false but diff(e, x) throws " << ex1 << " for e = " << *e;
     if (ex1.empty()) {
         bool occ = has_symbol(*e, *x);
         o << "\t#INFO:occurs=" << (occ ? 1 : 0);
